@@ -171,6 +171,145 @@ theorem unroll_spec (h : Heap α) (a : Arr) (hr : Reach a.v) (ok : ArrOK h a) :
     · rw [hC] at h1; exact absurd h1 (by simp)
     · rw [hc] at h1; exact absurd h1 (by simp)
 
+/-- C2 (dead branch). The "Special case 1D" branch of `Reshape` is unreachable for reachable views: its guard
+`Maximum(Dims) == 1` (with a 1-D new shape) forces a single-element view, which `Contiguous()` reports as
+contiguous — so the earlier `contiguous || !reshapeToSeries` branch is always the one taken. -/
+theorem reshape_special_dead {v : View} (hr : Reach v) (hm : maximum v.dims = .ok 1) :
+    v.size = 1 ∧ v.contiguous = .ok true :=
+  NdC02.max_one_contig (reach_geo hr) hm
+
+/-- C2. `Reshape(newShape)` on a reachable, well-windowed array:
+* returns the error `"size-mismatch"` (heap untouched) exactly when `Π newShape ≠ size`; it returns no other error value;
+* otherwise, for a non-empty shape with extents ≥ 1, it succeeds with an array `b` whose view is a ROOT view of shape
+  `newShape`, and element `k` (row-major) of `b` is element `k` (row-major) of `a`, for every `0 ≤ k < size`;
+* contiguous view: the heap is unchanged and `b` ALIASES the storage of `a` (Go: `Impl` re-based to
+  `base + start`, length `size`; C: same pointer, root view starting at `Start`);
+* non-contiguous view (either back-end): `b` is Go-backed on a FRESH storage holding the row-major elements;
+* a Go-backed result is again reachable and well-windowed (so all theorems apply to it). -/
+theorem reshape_spec (h : Heap α) (a : Arr) (hr : Reach a.v) (ok : ArrOK h a) (s : Idx) :
+    (product s ≠ a.v.size → reshape h a s = .ok (h, .inl "size-mismatch")) ∧
+    (∀ h' m, reshape h a s = .ok (h', .inl m) → product s ≠ a.v.size ∧ m = "size-mismatch" ∧ h' = h) ∧
+    (product s = a.v.size → s ≠ [] → Pos s → ∃ h' b, reshape h a s = .ok (h', .inr b) ∧
+      b.v = rootView s (if a.isC = true ∧ a.v.contiguous = .ok true then a.v.start else 0) ∧
+      (∀ k, 0 ≤ k → k < a.v.size →
+        ∃ x, get h a (unravel k a.v.dims) = .ok x ∧ get h' b (unravel k s) = .ok x) ∧
+      (a.v.contiguous = .ok true →
+        h' = h ∧ b = (if a.isC = true then NdC02.cAliasArr a s else NdC02.aliasArr a s)) ∧
+      (a.v.contiguous = .ok false → ∃ vals, NdC02.getAll h a (NdC02.rowMajor a.v.dims) = .ok vals ∧
+        h' = h ++ [vals] ∧ b = NdC02.freshArr h vals s) ∧
+      (b.isC = false → Reach b.v ∧ ArrOK h' b)) := by
+  have g := reach_geo hr
+  have hmis := NdC02.reshape_mismatch h a s
+  obtain ⟨c, hc⟩ := (NdC02.contiguous_iff_geo g).2
+  have helem : ∀ k, 0 ≤ k → k < a.v.size → ∃ x, get h a (unravel k a.v.dims) = .ok x := by
+    intro k k0 k1
+    obtain ⟨_, x, _, _, _, _, hx⟩ := NdC02.get_cell g ok (NdC02.unravel_inBounds g.pos_dims k0 k1)
+    exact ⟨x, hx⟩
+  have hsucc : product s = a.v.size → s ≠ [] → Pos s → ∃ h' b, reshape h a s = .ok (h', .inr b) ∧
+      b.v = rootView s (if a.isC = true ∧ a.v.contiguous = .ok true then a.v.start else 0) ∧
+      (∀ k, 0 ≤ k → k < a.v.size →
+        ∃ x, get h a (unravel k a.v.dims) = .ok x ∧ get h' b (unravel k s) = .ok x) ∧
+      (a.v.contiguous = .ok true →
+        h' = h ∧ b = (if a.isC = true then NdC02.cAliasArr a s else NdC02.aliasArr a s)) ∧
+      (a.v.contiguous = .ok false → ∃ vals, NdC02.getAll h a (NdC02.rowMajor a.v.dims) = .ok vals ∧
+        h' = h ++ [vals] ∧ b = NdC02.freshArr h vals s) ∧
+      (b.isC = false → Reach b.v ∧ ArrOK h' b) := by
+    intro hsz hs hp
+    cases c with
+    | false =>
+      obtain ⟨vals, hv, hl⟩ := NdC02.elems_ok g ok
+      have hl' : (vals.length : Int) = product s := by
+        have := NdC02.product_pos g.pos_dims
+        rw [hl, hsz]; simp only [View.size]; omega
+      refine ⟨_, _, NdC02.reshape_copy g hs hsz hc hv, ?_, ?_, ?_, fun _ => ⟨vals, hv, rfl, rfl⟩, fun _ =>
+        ⟨NdC02.reach_rootView hs hp, NdC02.arrOK_fresh h vals hl'⟩⟩
+      · have : ¬ (a.isC = true ∧ a.v.contiguous = .ok true) := by rw [hc]; simp
+        rw [if_neg this]; rfl
+      · intro k k0 k1
+        have hk : ((k.toNat : Nat) : Int) = k := by omega
+        obtain ⟨x, hx1, hx2⟩ := NdC02.elems_getElem hv k.toNat (by rw [hk]; exact k1)
+        rw [hk] at hx2
+        refine ⟨x, hx2, ?_⟩
+        have := NdC02.get_fresh (h := h) hs hp hl' k.toNat (by rw [hk, hsz]; exact k1) hx1
+        rwa [hk] at this
+      · intro h1; rw [hc] at h1; exact absurd h1 (by simp)
+    | true =>
+      cases hC : a.isC with
+      | true =>
+        refine ⟨_, _, NdC02.reshape_c_alias g hs hsz hc hC, ?_, ?_, fun _ => ⟨rfl, by simp⟩, ?_, ?_⟩
+        · rw [if_pos ⟨rfl, hc⟩]; rfl
+        · intro k k0 k1
+          obtain ⟨x, hx⟩ := helem k k0 k1
+          exact ⟨x, hx, by rw [NdC02.get_cAlias g hc hp hsz k0 k1, hx]⟩
+        · intro h1; rw [hc] at h1; exact absurd h1 (by simp)
+        · intro h1
+          have : (NdC02.cAliasArr a s).isC = a.isC := rfl
+          rw [this, hC] at h1; exact absurd h1 (by simp)
+      | false =>
+        refine ⟨_, _, NdC02.reshape_go_alias g ok hs hsz hc hC, ?_, ?_, fun _ => ⟨rfl, by simp⟩, ?_, fun _ =>
+          ⟨NdC02.reach_rootView hs hp, NdC02.arrOK_alias g ok hc hsz⟩⟩
+        · rw [if_neg (by simp)]; rfl
+        · intro k k0 k1
+          obtain ⟨x, hx⟩ := helem k k0 k1
+          exact ⟨x, hx, by rw [NdC02.get_alias g ok hc hs hp hsz k0 k1, hx]⟩
+        · intro h1; rw [hc] at h1; exact absurd h1 (by simp)
+  refine ⟨hmis, ?_, hsucc⟩
+  intro h' m hres
+  by_cases hsz : product s = a.v.size
+  · exfalso
+    by_cases hs : s = []
+    · subst hs
+      rw [NdC02.reshape_nil g ok hsz] at hres
+      exact absurd hres (by simp)
+    · -- a non-empty shape of the right size never yields an error value (no `Pos` needed for that)
+      cases c with
+      | false =>
+        obtain ⟨vals, hv, _⟩ := NdC02.elems_ok g ok
+        rw [NdC02.reshape_copy g hs hsz hc hv] at hres
+        simp at hres
+      | true =>
+        cases hC : a.isC with
+        | true => rw [NdC02.reshape_c_alias g hs hsz hc hC] at hres; simp at hres
+        | false => rw [NdC02.reshape_go_alias g ok hs hsz hc hC] at hres; simp at hres
+  · rw [hmis hsz] at hres
+    simp only [Except.ok.injEq, Prod.mk.injEq, Sum.inl.injEq] at hres
+    exact ⟨hsz, hres.2.symm, hres.1.symm⟩
+
+/-- C2. `ReshapeFast(newShape)` returns the error `"not-contiguous"` exactly on non-contiguous views (checked
+before anything else, heap untouched), and otherwise behaves exactly as `Reshape`. -/
+theorem reshapeFast_spec (h : Heap α) (a : Arr) (hr : Reach a.v) (ok : ArrOK h a) (s : Idx) :
+    (a.v.contiguous = .ok false → reshapeFast h a s = .ok (h, .inl "not-contiguous")) ∧
+    (a.v.contiguous = .ok true → reshapeFast h a s = reshape h a s) ∧
+    (∀ h', reshapeFast h a s = .ok (h', .inl "not-contiguous") → a.v.contiguous = .ok false) := by
+  refine ⟨NdC02.reshapeFast_noncontig s, NdC02.reshapeFast_contig s, ?_⟩
+  intro h' hres
+  obtain ⟨c, hc⟩ := (NdC02.contiguous_iff_geo (reach_geo hr)).2
+  cases c with
+  | false => exact hc
+  | true =>
+    rw [NdC02.reshapeFast_contig s hc] at hres
+    have := ((reshape_spec h a hr ok s).2.1 h' _ hres).2.1
+    exact absurd this (by decide)
+
+/-- C2. `MustReshape` is `Reshape` with the returned error turned into a panic. -/
+theorem mustReshape_spec (h : Heap α) (a : Arr) (s : Idx) :
+    (∀ h' b, reshape h a s = .ok (h', .inr b) → mustReshape h a s = .ok (h', b)) ∧
+    (∀ h' m, reshape h a s = .ok (h', .inl m) → mustReshape h a s = .error m) := by
+  constructor <;> intro h' x hres <;> simp [mustReshape, hres, bind, Except.bind, pure, Except.pure]
+
+/-- C3. `Maximum()` / `Minimum()` (strict comparison `better v res`, e.g. `v > res`) of a reachable, well-windowed
+array never panic and equal the left fold of "keep the better one" over the row-major element list, starting from
+the first element (for a total order: the max / min of the elements; ties keep the earliest). -/
+theorem extremum_spec (better : α → α → Bool) (h : Heap α) (a : Arr) (hr : Reach a.v) (ok : ArrOK h a) :
+    ∃ v0 rest, NdC02.getAll h a (NdC02.rowMajor a.v.dims) = .ok (v0 :: rest) ∧
+      extremum better h a = .ok ((v0 :: rest).foldl (fun res v => if better v res then v else res) v0) := by
+  have g := reach_geo hr
+  obtain ⟨vals, hv, hl⟩ := NdC02.elems_ok g ok
+  have := NdC02.product_pos g.pos_dims
+  cases vals with
+  | nil => simp at hl; omega
+  | cons v0 rest => exact ⟨v0, rest, hv, NdC02.extremum_eq g better hv⟩
+
 end
 
 end OW.Props.C02
